@@ -307,6 +307,21 @@ theorem written_names {K : Type} (fetch : K → Option Bytes) :
       rw [filter_true'] at this ⊢
       simp only [List.filterMap_cons, hfe, Option.map_some, List.map_cons, this]
 
+/-- **completion order**: entries are recorded in the order in which the parallel uploads
+    complete; whatever that order (any permutation of the entries), the download succeeds and
+    writes the same set of files -/
+theorem C04_download_perm {K : Type} (fetch : K → Option Bytes) (sel : String → Bool)
+    (es es' : List (Entry K)) (hp : es'.Perm es)
+    (hf : ∀ e ∈ es, (fetch e.hash).isSome = true) (hnd : (es.map (·.name)).Nodup) :
+    ∃ out out', download fetch sel es [] = some out ∧ download fetch sel es' [] = some out' ∧ out'.Perm out := by
+  have hf' : ∀ e ∈ es', (fetch e.hash).isSome = true := fun e he => hf e (hp.subset he)
+  have hnd' : (es'.map (·.name)).Nodup := (hp.map _).nodup_iff.mpr hnd
+  refine ⟨written fetch sel es, written fetch sel es', ?_, ?_, ?_⟩
+  · simpa using C04_download_exact fetch sel es [] hf hnd (by intro _ _ p hp'; simp at hp')
+  · simpa using C04_download_exact fetch sel es' [] hf' hnd' (by intro _ _ p hp'; simp at hp')
+  · unfold written
+    exact (hp.filter _).filterMap _
+
 /-- **round trip**: uploading a tree (all its files, distinct paths) and downloading the bundle
     writes exactly the non-generated files, each with its original bytes -/
 theorem C04_roundtrip {K : Type} (key : Bytes → K) (fetch : K → Option Bytes)
